@@ -117,6 +117,13 @@ impl std::fmt::Debug for Tracked {
 trait Elem: Clone + PartialEq + 'static {
     const TRACKED: bool;
     const NAME: &'static str;
+    /// non-zero: fresh values are 1 + n % MODULUS (element types narrower than u64)
+    const MODULUS: u64 = 0;
+    /// a size for bulk operations: `x % small` for the wide element types; one-byte elements
+    /// need 64 elements to reach the 64-byte SIMD thresholds, so their sizes cluster there
+    fn size(x: u64, small: u64) -> usize {
+        (x % small) as usize
+    }
     fn mk(v: u64) -> Self;
     fn val(&self) -> u64;
     fn serial(&self) -> u64;
@@ -150,6 +157,7 @@ struct H<'a> {
     cx: &'a mut Run,
     tgt: &'static str,
     next_val: u64,
+    modulus: u64,
 }
 
 fn show(v: &[u64]) -> String {
@@ -163,12 +171,17 @@ fn show(v: &[u64]) -> String {
 impl<'a> H<'a> {
     fn new(cx: &'a mut Run, tgt: &'static str) -> H<'a> {
         ledger_reset();
-        H { cx, tgt, next_val: 0 }
+        H { cx, tgt, next_val: 0, modulus: 0 }
     }
-    /// a value that was never used before in this run
+    /// a value that was never used before in this run (narrow element types: not used by
+    /// the previous `modulus - 1` draws, and never 0)
     fn fresh(&mut self) -> u64 {
         self.next_val += 1;
-        self.next_val
+        if self.modulus == 0 {
+            self.next_val
+        } else {
+            1 + (self.next_val - 1) % self.modulus
+        }
     }
     fn fresh_n(&mut self, n: usize) -> Vec<u64> {
         (0..n).map(|_| self.fresh()).collect()
@@ -274,7 +287,12 @@ fn planned_ops(cx: &mut Run, lo: u64, span: u64) -> Ops {
 // ---------------------------------------------------------------------------------------
 // FastVec
 
-const FV_GENERIC: u64 = 16;
+const FV_GENERIC: u64 = 17;
+
+/// does an operation over `n` elements reach the 64-byte SIMD threshold of FastVec / MmapVec?
+fn simd_sized<E>(n: usize) -> bool {
+    std::mem::size_of::<E>() > 0 && !std::mem::needs_drop::<E>() && n * std::mem::size_of::<E>() >= 64
+}
 
 fn fastvec_new<E: Elem>(h: &mut H, o: [u64; 4], m: &mut Vec<u64>) -> Option<FastVec<E>> {
     m.clear();
@@ -306,6 +324,7 @@ fn fastvec_run<E: Elem>(cx: &mut Run) {
     let mut ops = planned_ops(cx, 4, if E::TRACKED { 28 } else { 40 });
     let big: u64 = if E::TRACKED { 7 } else { 20 };
     let mut h = H::new(cx, "FastVec");
+    h.modulus = E::MODULUS;
     let mut slots: Vec<(FastVec<E>, Vec<u64>)> = vec![(FastVec::new(), vec![])];
     while let Some(o) = ops.next() {
         let k = o[0] % nk;
@@ -348,7 +367,7 @@ fn fastvec_run<E: Elem>(cx: &mut Run) {
                         h.cell(op, "oob");
                     } else if h.must_ok(op, r).is_some() {
                         m.insert(idx, v);
-                        if !E::TRACKED && len - idx >= 8 {
+                        if simd_sized::<E>(len - idx) {
                             h.cx.probe("fastvec_simd_move");
                         }
                     }
@@ -366,15 +385,18 @@ fn fastvec_run<E: Elem>(cx: &mut Run) {
                     } else if let Some(got) = h.must_ok(op, r) {
                         let e = m.remove(idx);
                         h.same("wrong_value", op, "removed element", got, e);
-                        if !E::TRACKED && len - idx - 1 >= 8 {
+                        if simd_sized::<E>(len - idx - 1) {
                             h.cx.probe("fastvec_simd_move");
                         }
                     }
                 }
                 5 => {
                     op = "resize";
-                    let n = (o[1] % 14) as usize;
+                    let n = E::size(o[1], 14);
                     let v = h.fresh();
+                    if n > len && simd_sized::<E>(n - len) && std::mem::size_of::<E>() == 1 {
+                        h.cx.probe("fastvec_simd_resize_fill");
+                    }
                     let r = fv.resize(n, E::mk(v));
                     h.ev(format!("s{} resize({}, {}) -> {}", s, n, v, if r.is_ok() { "ok" } else { "err" }));
                     if h.must_ok(op, r).is_some() {
@@ -383,7 +405,7 @@ fn fastvec_run<E: Elem>(cx: &mut Run) {
                 }
                 6 => {
                     op = "resize_with";
-                    let n = (o[1] % 14) as usize;
+                    let n = E::size(o[1], 14);
                     let vals = h.fresh_n(n.saturating_sub(len));
                     let mut it = vals.clone().into_iter();
                     let r = fv.resize_with(n, || E::mk(it.next().unwrap_or(0)));
@@ -395,11 +417,11 @@ fn fastvec_run<E: Elem>(cx: &mut Run) {
                 }
                 7 => {
                     op = "extend";
-                    let vals = h.fresh_n((o[1] % big) as usize);
+                    let vals = h.fresh_n(E::size(o[1], big));
                     let items: Vec<E> = vals.iter().map(|&v| E::mk(v)).collect();
                     let r = fv.extend(items);
-                    h.ev(format!("s{} extend({:?}) -> {}", s, vals, if r.is_ok() { "ok" } else { "err" }));
-                    if !E::TRACKED && vals.len() >= 8 {
+                    h.ev(format!("s{} extend({}) -> {}", s, show(&vals), if r.is_ok() { "ok" } else { "err" }));
+                    if simd_sized::<E>(vals.len()) {
                         h.cx.probe("fastvec_simd_extend");
                     }
                     if h.must_ok(op, r).is_some() {
@@ -440,6 +462,11 @@ fn fastvec_run<E: Elem>(cx: &mut Run) {
                     }
                     let (f, l) = (fv.first().map(|e| e.val()), fv.last().map(|e| e.val()));
                     h.same("wrong_value", op, "first()/last()", (f, l), (m.first().copied(), m.last().copied()));
+                    if idx < len {
+                        // precondition of the unchecked accessor (index < len) holds
+                        let u = unsafe { fv.get_unchecked(idx) }.val();
+                        h.same("wrong_value", "get_unchecked", "element", u, m[idx]);
+                    }
                 }
                 12 => {
                     op = "ensure_capacity";
@@ -454,9 +481,54 @@ fn fastvec_run<E: Elem>(cx: &mut Run) {
                     if len > 0 {
                         let idx = (o[1] as usize) % len;
                         let v = h.fresh();
-                        fv[idx] = E::mk(v);
+                        if o[2] % 3 == 0 {
+                            // precondition (index < len) holds; the assignment drops the old element
+                            *unsafe { fv.get_unchecked_mut(idx) } = E::mk(v);
+                            h.ev(format!("s{} *get_unchecked_mut({}) = {}", s, idx, v));
+                        } else {
+                            fv[idx] = E::mk(v);
+                            h.ev(format!("s{} [{}] = {}", s, idx, v));
+                        }
                         m[idx] = v;
-                        h.ev(format!("s{} [{}] = {}", s, idx, v));
+                    }
+                }
+                16 => {
+                    // mutation through the slice views (DerefMut / as_mut_slice / iter_mut)
+                    op = "slice_mut";
+                    let how = o[1] % 5;
+                    match how {
+                        0 if len >= 2 => {
+                            let (i, j) = ((o[2] as usize) % len, (o[2] as usize / 64) % len);
+                            fv.as_mut_slice().swap(i, j);
+                            m.swap(i, j);
+                            h.ev(format!("s{} as_mut_slice().swap({}, {})", s, i, j));
+                        }
+                        1 => {
+                            fv.reverse();
+                            m.reverse();
+                            h.ev(format!("s{} (deref_mut).reverse()", s));
+                        }
+                        2 if len >= 1 => {
+                            let k = (o[2] as usize) % len;
+                            fv.rotate_left(k);
+                            m.rotate_left(k);
+                            h.ev(format!("s{} (deref_mut).rotate_left({})", s, k));
+                        }
+                        3 => {
+                            let n = ((o[2] % 3) as usize).min(len);
+                            let vals = h.fresh_n(n);
+                            for (e, &v) in fv.iter_mut().zip(vals.iter()) {
+                                *e = E::mk(v);
+                            }
+                            m[..n].copy_from_slice(&vals);
+                            h.ev(format!("s{} iter_mut() assigns {:?}", s, vals));
+                        }
+                        _ => {
+                            let got: Vec<u64> = fv.iter().rev().map(|e| e.val()).collect();
+                            let exp: Vec<u64> = m.iter().rev().copied().collect();
+                            h.ev(format!("s{} iter().rev() -> {} elements", s, got.len()));
+                            h.seq(op, "iter().rev()", &got, &exp);
+                        }
                     }
                 }
                 14 | 15 => {
@@ -510,6 +582,26 @@ fn fastvec_run<E: Elem>(cx: &mut Run) {
         if !check_slices(&mut h, op, &views) {
             break;
         }
+        let meta_ok = slots.iter().all(|(c, m)| c.len() == m.len() && c.is_empty() == m.is_empty() && c.capacity() >= m.len());
+        if !meta_ok {
+            h.bad("wrong_value", op, "len()/is_empty()/capacity() disagree with the model".to_string());
+            break;
+        }
+        if slots.len() == 2 {
+            // two live vectors (clone, then diverge): == must agree with the models
+            let eq = slots[0].0 == slots[1].0;
+            let meq = slots[0].1 == slots[1].1;
+            if meq && simd_sized::<E>(slots[0].1.len()) {
+                h.cx.probe("fastvec_simd_eq_equal");
+            }
+            if !meq && slots[0].1.len() == slots[1].1.len() && simd_sized::<E>(slots[0].1.len()) {
+                h.cx.probe("fastvec_simd_eq_differs");
+            }
+            if eq != meq {
+                h.bad("wrong_value", "eq", format!("vector == vector gives {}, the models {} and {} give {}", eq, show(&slots[0].1), show(&slots[1].1), meq));
+                break;
+            }
+        }
     }
     let failed = h.failed();
     drop(slots);
@@ -518,6 +610,57 @@ fn fastvec_run<E: Elem>(cx: &mut Run) {
     }
     h.cx.probe_n("element_clones", ledger_clones());
     h.cx.nontrivial = h.cx.steps >= 3;
+}
+
+/// the Copy-only bulk operations of FastVec, for any plain element type
+fn fastvec_copy_ops<E: Elem + Copy>(h: &mut H, k: u64, o: [u64; 4], s: usize, fv: &mut FastVec<E>, m: &mut Vec<u64>) -> &'static str {
+    let len = m.len();
+    match k - FV_GENERIC {
+        0 => {
+            let op = "fill_range_fast";
+            let start = (o[1] as usize) % (len + 2);
+            let end = (o[2] as usize) % (len + 3);
+            let v = h.fresh();
+            let r = fv.fill_range_fast(start, end, E::mk(v));
+            h.ev(format!("s{} fill_range_fast({}, {}, {}) -> {}", s, start, end, v, if r.is_ok() { "ok" } else { "err" }));
+            if start > end || end > len {
+                if r.is_ok() {
+                    h.bad("oob_not_reported", op, format!("range {}..{} on length {} returned Ok", start, end, len));
+                }
+                h.cell(op, "oob");
+            } else if h.must_ok(op, r).is_some() {
+                m[start..end].fill(v);
+                if simd_sized::<E>(end - start) {
+                    h.cx.probe("fastvec_simd_fill");
+                }
+            }
+            op
+        }
+        1 => {
+            let op = "extend_from_slice_fast";
+            let vals = h.fresh_n(E::size(o[1], 20));
+            let items: Vec<E> = vals.iter().map(|&v| E::mk(v)).collect();
+            let r = fv.extend_from_slice_fast(&items);
+            h.ev(format!("s{} extend_from_slice_fast({}) -> {}", s, show(&vals), if r.is_ok() { "ok" } else { "err" }));
+            if h.must_ok(op, r).is_some() {
+                m.extend(vals);
+            }
+            op
+        }
+        _ => {
+            let op = "copy_from_slice_fast";
+            // only sources that are not shorter than the current content (a shorter
+            // source is outside the operations C10 quantifies over; see REPORT)
+            let vals = h.fresh_n(len + E::size(o[1], 12));
+            let items: Vec<E> = vals.iter().map(|&v| E::mk(v)).collect();
+            let r = fv.copy_from_slice_fast(&items);
+            h.ev(format!("s{} copy_from_slice_fast({}) -> {}", s, show(&vals), if r.is_ok() { "ok" } else { "err" }));
+            if h.must_ok(op, r).is_some() && !vals.is_empty() {
+                *m = vals;
+            }
+            op
+        }
+    }
 }
 
 impl Elem for u64 {
@@ -533,51 +676,7 @@ impl Elem for u64 {
         0
     }
     fn fastvec_copy_op(h: &mut H, k: u64, o: [u64; 4], s: usize, fv: &mut FastVec<u64>, m: &mut Vec<u64>) -> &'static str {
-        let len = m.len();
-        match k - FV_GENERIC {
-            0 => {
-                let op = "fill_range_fast";
-                let start = (o[1] as usize) % (len + 2);
-                let end = (o[2] as usize) % (len + 3);
-                let v = h.fresh();
-                let r = fv.fill_range_fast(start, end, v);
-                h.ev(format!("s{} fill_range_fast({}, {}, {}) -> {}", s, start, end, v, if r.is_ok() { "ok" } else { "err" }));
-                if start > end || end > len {
-                    if r.is_ok() {
-                        h.bad("oob_not_reported", op, format!("range {}..{} on length {} returned Ok", start, end, len));
-                    }
-                    h.cell(op, "oob");
-                } else if h.must_ok(op, r).is_some() {
-                    m[start..end].fill(v);
-                    if end - start >= 8 {
-                        h.cx.probe("fastvec_simd_fill");
-                    }
-                }
-                op
-            }
-            1 => {
-                let op = "extend_from_slice_fast";
-                let vals = h.fresh_n((o[1] % 20) as usize);
-                let r = fv.extend_from_slice_fast(&vals);
-                h.ev(format!("s{} extend_from_slice_fast({:?}) -> {}", s, vals, if r.is_ok() { "ok" } else { "err" }));
-                if h.must_ok(op, r).is_some() {
-                    m.extend(vals);
-                }
-                op
-            }
-            _ => {
-                let op = "copy_from_slice_fast";
-                // only sources that are not shorter than the current content (a shorter
-                // source is outside the operations C10 quantifies over; see REPORT)
-                let vals = h.fresh_n(len + (o[1] % 12) as usize);
-                let r = fv.copy_from_slice_fast(&vals);
-                h.ev(format!("s{} copy_from_slice_fast({:?}) -> {}", s, vals, if r.is_ok() { "ok" } else { "err" }));
-                if h.must_ok(op, r).is_some() && !vals.is_empty() {
-                    *m = vals;
-                }
-                op
-            }
-        }
+        fastvec_copy_ops::<u64>(h, k, o, s, fv, m)
     }
     fn valvec_copy_op(h: &mut H, k: u64, o: [u64; 4], s: usize, vv: &mut ValVec32<u64>, m: &mut Vec<u64>) -> &'static str {
         match k - VV_GENERIC {
@@ -588,6 +687,17 @@ impl Elem for u64 {
                 h.ev(format!("s{} extend_from_slice_copy({:?}) -> {}", s, vals, if r.is_ok() { "ok" } else { "err" }));
                 if h.must_ok(op, r).is_some() {
                     m.extend(vals);
+                }
+                op
+            }
+            2 => {
+                let op = "unchecked_push_copy";
+                if (m.len() as u32) < vv.capacity() {
+                    // the documented precondition (len < capacity) holds
+                    let v = h.fresh();
+                    unsafe { vv.unchecked_push_copy(v) };
+                    m.push(v);
+                    h.ev(format!("s{} unchecked_push_copy({})", s, v));
                 }
                 op
             }
@@ -609,13 +719,42 @@ impl Elem for u64 {
     }
 }
 
+/// One-byte elements: the only element size for which FastVec::resize / fill_range_fast and
+/// MmapVec::fill_range_simd take their byte-fill paths, and 64 elements (not 8) are needed
+/// to reach the 64-byte thresholds of the bulk operations.
+impl Elem for u8 {
+    const TRACKED: bool = false;
+    const NAME: &'static str = "u8";
+    const MODULUS: u64 = 250;
+    fn size(x: u64, small: u64) -> usize {
+        (match x % 4 {
+            0 => (x / 4) % small,
+            1 => 56 + (x / 4) % 16,
+            2 => (x / 4) % 150,
+            _ => 120 + (x / 4) % 16,
+        }) as usize
+    }
+    fn mk(v: u64) -> u8 {
+        v as u8
+    }
+    fn val(&self) -> u64 {
+        *self as u64
+    }
+    fn serial(&self) -> u64 {
+        0
+    }
+    fn fastvec_copy_op(h: &mut H, k: u64, o: [u64; 4], s: usize, fv: &mut FastVec<u8>, m: &mut Vec<u64>) -> &'static str {
+        fastvec_copy_ops::<u8>(h, k, o, s, fv, m)
+    }
+}
+
 // ---------------------------------------------------------------------------------------
 // ValVec32
 
-const VV_GENERIC: u64 = 14;
+const VV_GENERIC: u64 = 16;
 
 fn valvec_run<E: Elem>(cx: &mut Run) {
-    let nk = if E::TRACKED { VV_GENERIC } else { VV_GENERIC + 2 };
+    let nk = if E::TRACKED { VV_GENERIC } else { VV_GENERIC + 3 };
     let off = swarm(cx, nk);
     let mut ops = planned_ops(cx, 4, if E::TRACKED { 28 } else { 36 });
     let big: u64 = if E::TRACKED { 7 } else { 20 };
@@ -742,6 +881,73 @@ fn valvec_run<E: Elem>(cx: &mut Run) {
                 12 | 13 => {
                     op = if k == 12 { "clone" } else { "drop" };
                 }
+                14 => {
+                    // mutation through the slice view, the mutable iterators and IndexMut
+                    op = "slice_mut";
+                    match o[1] % 6 {
+                        0 if len >= 2 => {
+                            let (i, j) = ((o[2] as usize) % len, (o[2] as usize / 64) % len);
+                            vv.as_mut_slice().swap(i, j);
+                            m.swap(i, j);
+                            h.ev(format!("s{} as_mut_slice().swap({}, {})", s, i, j));
+                        }
+                        1 => {
+                            vv.as_mut_slice().reverse();
+                            m.reverse();
+                            h.ev(format!("s{} as_mut_slice().reverse()", s));
+                        }
+                        2 => {
+                            let n = ((o[2] % 3) as usize).min(len);
+                            let vals = h.fresh_n(n);
+                            for (e, &v) in vv.iter_mut().zip(vals.iter()) {
+                                *e = E::mk(v);
+                            }
+                            m[..n].copy_from_slice(&vals);
+                            h.ev(format!("s{} iter_mut() assigns {:?}", s, vals));
+                        }
+                        3 => {
+                            let n = ((o[2] % 3) as usize).min(len);
+                            let vals = h.fresh_n(n);
+                            for (e, &v) in (&mut *vv).into_iter().rev().zip(vals.iter()) {
+                                *e = E::mk(v);
+                            }
+                            for (i, &v) in vals.iter().enumerate() {
+                                m[len - 1 - i] = v;
+                            }
+                            h.ev(format!("s{} (&mut v).into_iter().rev() assigns {:?}", s, vals));
+                        }
+                        4 if len >= 1 => {
+                            let idx = (o[2] as usize) % len;
+                            let v = h.fresh();
+                            vv[idx] = E::mk(v);
+                            m[idx] = v;
+                            h.ev(format!("s{} v[{}usize] = {}", s, idx, v));
+                        }
+                        5 if len >= 1 => {
+                            let idx = (o[2] as usize) % len;
+                            let v = h.fresh();
+                            vv[idx as u32] = E::mk(v);
+                            m[idx] = v;
+                            h.ev(format!("s{} v[{}u32] = {}", s, idx, v));
+                        }
+                        _ => {
+                            let got: Vec<u64> = vv.iter().rev().map(|e| e.val()).collect();
+                            let exp: Vec<u64> = m.iter().rev().copied().collect();
+                            h.ev(format!("s{} iter().rev() -> {} elements", s, got.len()));
+                            h.seq(op, "iter().rev()", &got, &exp);
+                        }
+                    }
+                }
+                15 => {
+                    op = "unchecked_push";
+                    if (len as u32) < vv.capacity() {
+                        // the documented precondition (len < capacity) holds
+                        let v = h.fresh();
+                        unsafe { vv.unchecked_push(E::mk(v)) };
+                        m.push(v);
+                        h.ev(format!("s{} unchecked_push({})", s, v));
+                    }
+                }
                 _ => {
                     op = E::valvec_copy_op(&mut h, k, o, s, vv, m);
                 }
@@ -798,6 +1004,21 @@ fn valvec_run<E: Elem>(cx: &mut Run) {
         if !check_slices(&mut h, op, &views) {
             break;
         }
+        let meta_ok = slots.iter().all(|(c, m)| {
+            c.len() as usize == m.len() && c.len_usize() == m.len() && c.is_empty() == m.is_empty() && c.capacity_usize() >= m.len() && c.capacity_usize() == c.capacity() as usize
+        });
+        if !meta_ok {
+            h.bad("wrong_value", op, "len()/len_usize()/is_empty()/capacity() disagree with the model".to_string());
+            break;
+        }
+        if slots.len() == 2 {
+            let eq = slots[0].0 == slots[1].0;
+            let meq = slots[0].1 == slots[1].1;
+            if eq != meq {
+                h.bad("wrong_value", "eq", format!("vector == vector gives {}, the models {} and {} give {}", eq, show(&slots[0].1), show(&slots[1].1), meq));
+                break;
+            }
+        }
     }
     let failed = h.failed();
     drop(slots);
@@ -812,7 +1033,7 @@ fn valvec_run<E: Elem>(cx: &mut Run) {
 // CacheAlignedVec
 
 fn cachevec_run(cx: &mut Run) {
-    const NK: u64 = 11;
+    const NK: u64 = 12;
     let off = swarm(cx, NK);
     let mut ops = planned_ops(cx, 4, 28);
     let mut h = H::new(cx, "CacheAlignedVec");
@@ -894,6 +1115,32 @@ fn cachevec_run(cx: &mut Run) {
                     h.bad("capacity_too_small", op, format!("capacity {} after reserve({}) at length {}", cv.capacity(), n, len));
                 }
             }
+            10 => {
+                op = "as_mut_slice";
+                match o[1] % 3 {
+                    0 if len >= 2 => {
+                        let (i, j) = ((o[2] as usize) % len, (o[2] as usize / 64) % len);
+                        cv.as_mut_slice().swap(i, j);
+                        m.swap(i, j);
+                        h.ev(format!("as_mut_slice().swap({}, {})", i, j));
+                    }
+                    1 if len >= 1 => {
+                        let idx = (o[2] as usize) % len;
+                        let v = h.fresh();
+                        let sl = cv.as_mut_slice();
+                        if sl.len() == len {
+                            sl[idx] = Tracked::new(v);
+                            m[idx] = v;
+                        }
+                        h.ev(format!("as_mut_slice()[{}] = {}", idx, v));
+                    }
+                    _ => {
+                        cv.as_mut_slice().reverse();
+                        m.reverse();
+                        h.ev("as_mut_slice().reverse()".into());
+                    }
+                }
+            }
             _ => {
                 op = "drop";
                 h.ev("drop container".into());
@@ -930,6 +1177,10 @@ fn cachevec_run(cx: &mut Run) {
         if !check_slices(&mut h, op, &[(cv.as_slice(), m.as_slice())]) {
             break;
         }
+        if cv.len() != m.len() || cv.is_empty() != m.is_empty() || cv.capacity() < m.len() {
+            h.bad("wrong_value", op, "len()/is_empty()/capacity() disagree with the model".to_string());
+            break;
+        }
     }
     let failed = h.failed();
     drop(cv);
@@ -942,8 +1193,14 @@ fn cachevec_run(cx: &mut Run) {
 // ---------------------------------------------------------------------------------------
 // BumpVec (several vectors carved out of one small arena)
 
+/// An over-aligned plain element: the arena buffer itself is only 8-byte aligned, so a vector
+/// of these needs padding that depends on what was carved out before it.
+#[repr(align(32))]
+#[derive(Clone, Copy, PartialEq, Debug)]
+struct Wide(u64);
+
 fn bumpvec_run(cx: &mut Run) {
-    const NK: u64 = 10;
+    const NK: u64 = 14;
     let off = swarm(cx, NK);
     let arena_bytes = *cx.src.chan("cfg").pick(&[96usize, 192, 384, 768]);
     let mut ops = planned_ops(cx, 4, 30);
@@ -955,9 +1212,24 @@ fn bumpvec_run(cx: &mut Run) {
             return;
         }
     };
+    // The arena's buffer is only 8-byte aligned, so how much padding an over-aligned vector
+    // needs depends on the address the system allocator happened to return.  Such vectors are
+    // therefore carved out of a second arena that is large enough never to be exhausted in a
+    // run: what a run observes (ok / refused) then does not depend on addresses.
+    let arena2 = match BumpAllocator::new(8192) {
+        Ok(a) => a,
+        Err(e) => {
+            h.bad("spurious_error", "BumpAllocator.new", format!("{:?}", e));
+            return;
+        }
+    };
     h.ev(format!("arena of {} bytes", arena_bytes));
     // (vector, model, capacity)
     let mut slots: Vec<Option<(BumpVec<'_, Tracked>, Vec<u64>, usize)>> = vec![None, None, None];
+    // one vector of over-aligned elements, and odd-sized byte blocks (alignment 1) between the
+    // vectors: (start, length, fill byte); they are read back after every step
+    let mut wide: Option<(BumpVec<'_, Wide>, Vec<u64>, usize)> = None;
+    let mut guards: Vec<(bool, std::ptr::NonNull<u8>, usize, u8)> = vec![];
     while let Some(o) = ops.next() {
         let k = o[0] % NK;
         if off[k as usize] {
@@ -1030,17 +1302,81 @@ fn bumpvec_run(cx: &mut Run) {
                     }
                 }
             }
-            _ => {
+            8 => {
                 op = "drop";
                 if slots[s].is_some() {
                     h.ev(format!("s{} drop vector", s));
                     slots[s] = None;
                 }
+                if o[2] % 3 == 0 && wide.is_some() {
+                    h.ev("drop wide vector".into());
+                    wide = None;
+                }
                 if slots.iter().all(|x| x.is_none()) && o[1] % 2 == 0 {
-                    // no vector alive: the documented precondition of reset() holds
+                    // no vector of this arena alive: the documented precondition of reset()
+                    // holds (its byte blocks are given up with it)
+                    guards.retain(|g| g.0);
                     unsafe { arena.reset() };
                     h.ev("arena.reset()".into());
                     h.cx.probe("arena_reset");
+                }
+            }
+            10 => {
+                op = "alloc_bytes";
+                let n = 1 + (o[1] % 7) as usize;
+                let fill = 0x80 | (h.fresh() as u8);
+                let second = o[2] % 2 == 1;
+                let r = if second { arena2.alloc_bytes(n, 1) } else { arena.alloc_bytes(n, 1) };
+                h.ev(format!("{}.alloc_bytes({}, 1) -> {}", if second { "arena2" } else { "arena" }, n, if r.is_ok() { "ok" } else { "refused" }));
+                match r {
+                    Ok(p) => {
+                        unsafe { std::ptr::write_bytes(p.as_ptr(), fill, n) };
+                        guards.push((second, p, n, fill));
+                        h.cx.probe("arena_odd_offset");
+                    }
+                    Err(_) if second => h.bad("spurious_error", op, format!("{} bytes refused by an arena of 8192 bytes that is far from full", n)),
+                    Err(_) => h.cx.fault("arena_exhausted"),
+                }
+            }
+            11 => {
+                op = "new_in_wide";
+                if wide.is_some() {
+                    h.ev("drop wide vector".into());
+                    wide = None;
+                }
+                let cap = 1 + (o[1] % 3) as usize;
+                let r = BumpVec::<Wide>::new_in(&arena2, cap);
+                h.ev(format!("wide = new_in(arena2, {}) -> {}", cap, if r.is_ok() { "ok" } else { "refused" }));
+                if let Some(v) = h.must_ok(op, r) {
+                    if v.capacity() != cap || v.len() != 0 {
+                        h.bad("wrong_value", op, format!("new vector reports capacity {} len {} (asked for {})", v.capacity(), v.len(), cap));
+                    }
+                    wide = Some((v, vec![], cap));
+                }
+            }
+            12 => {
+                op = "push_wide";
+                if let Some((v, m, cap)) = wide.as_mut() {
+                    let x = h.fresh();
+                    let r = v.push(Wide(x));
+                    h.ev(format!("wide push({}) -> {}", x, if r.is_ok() { "ok" } else { "refused" }));
+                    if m.len() >= *cap {
+                        if r.is_ok() {
+                            h.bad("capacity_not_enforced", op, format!("push accepted at length {} of capacity {}", m.len(), cap));
+                        }
+                        h.cx.fault("bumpvec_full");
+                    } else if h.must_ok(op, r).is_some() {
+                        m.push(x);
+                    }
+                }
+            }
+            _ => {
+                op = "pop_wide";
+                if let Some((v, m, _)) = wide.as_mut() {
+                    let r = v.pop().map(|e| e.0);
+                    h.ev(format!("wide pop() -> {:?}", r));
+                    let e = m.pop();
+                    h.same("wrong_value", op, "popped element", r, e);
                 }
             }
         }
@@ -1057,8 +1393,33 @@ fn bumpvec_run(cx: &mut Run) {
             h.bad("wrong_value", op, "len()/is_empty() disagree with the model".to_string());
             break;
         }
+        if let Some((v, m, _)) = wide.as_ref() {
+            let got: Vec<u64> = v.as_slice().iter().map(|e| e.0).collect();
+            if !h.seq(op, "wide vector", &got, m) {
+                break;
+            }
+            if v.len() != m.len() || v.is_empty() != m.is_empty() {
+                h.bad("wrong_value", op, "wide vector: len()/is_empty() disagree with the model".to_string());
+                break;
+            }
+            if v.as_slice().as_ptr() as usize % std::mem::align_of::<Wide>() != 0 {
+                h.bad("misaligned", "new_in", format!("the storage of a vector of {}-byte-aligned elements is not {}-byte aligned", std::mem::align_of::<Wide>(), std::mem::align_of::<Wide>()));
+                break;
+            }
+        }
+        if slots.iter().flatten().any(|(v, _, _)| v.as_slice().as_ptr() as usize % std::mem::align_of::<Tracked>() != 0) {
+            h.bad("misaligned", "new_in", "the storage of a vector is not aligned for its element type".to_string());
+            break;
+        }
+        // the byte blocks carved out between the vectors still hold what was written into them
+        let damaged = guards.iter().position(|&(_, p, n, fill)| (0..n).any(|i| unsafe { *p.as_ptr().add(i) } != fill));
+        if let Some(g) = damaged {
+            h.bad("overlap", "alloc_bytes", format!("byte block #{} ({} bytes) handed out by the arena was overwritten through a vector carved out of the same arena", g, guards[g].2));
+            break;
+        }
     }
     let failed = h.failed();
+    drop(wide);
     drop(slots);
     if !failed {
         h.ledger("drop", 0);
@@ -1069,7 +1430,13 @@ fn bumpvec_run(cx: &mut Run) {
 // ---------------------------------------------------------------------------------------
 // FixedCircularQueue
 
-fn fixed_queue_run<const N: usize>(h: &mut H, ops: &mut Ops, off: &[bool], nk: u64) {
+/// what `{:?}` prints for a std sequence of `Tracked` holding these values
+fn debug_text<'x>(vals: impl Iterator<Item = &'x u64>) -> String {
+    let v: Vec<String> = vals.map(|x| format!("T{}", x)).collect();
+    format!("[{}]", v.join(", "))
+}
+
+fn fixed_queue_run<const N: usize>(h: &mut H, ops: &mut Ops, off: &[bool], nk: u64, observe: bool) {
     let mut q: FixedCircularQueue<Tracked, N> = FixedCircularQueue::new();
     let mut m: VecDeque<u64> = VecDeque::new();
     h.ev(format!("FixedCircularQueue<_, {}>::new()", N));
@@ -1126,6 +1493,19 @@ fn fixed_queue_run<const N: usize>(h: &mut H, ops: &mut Ops, off: &[bool], nk: u
         if !h.ledger(op, m.len()) {
             break;
         }
+        if observe {
+            // the queue has no iterator: its Debug output is the only way to look at the whole
+            // sequence without taking it apart
+            let got = format!("{:?}", q);
+            let want = debug_text(m.iter());
+            if got != want {
+                // the site says whether the queue was completely full (head == tail with
+                // elements inside), so that a known defect of that state cannot cover another one
+                let site = if m.len() == N { "debug/full" } else { "debug" };
+                h.bad("wrong_sequence", site, format!("{{:?}} of a queue holding {} of {} elements prints {}, a VecDeque holding the same elements prints {}", m.len(), N, got, want));
+                break;
+            }
+        }
     }
     if !h.failed() {
         // read everything out
@@ -1146,19 +1526,19 @@ fn fixed_queue_run<const N: usize>(h: &mut H, ops: &mut Ops, off: &[bool], nk: u
     }
 }
 
-fn fixed_queue(cx: &mut Run) {
+fn fixed_queue(cx: &mut Run, observe: bool) {
     const NK: u64 = 9;
     let off = swarm(cx, NK);
     let n = *cx.src.chan("cfg").pick(&[1usize, 2, 3, 4, 5, 8]);
     let mut ops = planned_ops(cx, 4, 30);
     let mut h = H::new(cx, "FixedCircularQueue");
     match n {
-        1 => fixed_queue_run::<1>(&mut h, &mut ops, &off, NK),
-        2 => fixed_queue_run::<2>(&mut h, &mut ops, &off, NK),
-        3 => fixed_queue_run::<3>(&mut h, &mut ops, &off, NK),
-        4 => fixed_queue_run::<4>(&mut h, &mut ops, &off, NK),
-        5 => fixed_queue_run::<5>(&mut h, &mut ops, &off, NK),
-        _ => fixed_queue_run::<8>(&mut h, &mut ops, &off, NK),
+        1 => fixed_queue_run::<1>(&mut h, &mut ops, &off, NK, observe),
+        2 => fixed_queue_run::<2>(&mut h, &mut ops, &off, NK, observe),
+        3 => fixed_queue_run::<3>(&mut h, &mut ops, &off, NK, observe),
+        4 => fixed_queue_run::<4>(&mut h, &mut ops, &off, NK, observe),
+        5 => fixed_queue_run::<5>(&mut h, &mut ops, &off, NK, observe),
+        _ => fixed_queue_run::<8>(&mut h, &mut ops, &off, NK, observe),
     }
     h.cx.nontrivial = h.cx.steps >= 3;
 }
@@ -1168,6 +1548,10 @@ fn fixed_queue(cx: &mut Run) {
 
 fn autogrow_new(h: &mut H, o: [u64; 4]) -> AutoGrowCircularQueue<Tracked> {
     if o[1] % 3 == 0 {
+        if o[2] % 2 == 1 {
+            h.ev("default()".into());
+            return AutoGrowCircularQueue::default();
+        }
         h.ev("new()".into());
         AutoGrowCircularQueue::new()
     } else {
@@ -1178,7 +1562,7 @@ fn autogrow_new(h: &mut H, o: [u64; 4]) -> AutoGrowCircularQueue<Tracked> {
 }
 
 fn autogrow_run(cx: &mut Run) {
-    const NK: u64 = 13;
+    const NK: u64 = 14;
     let off = swarm(cx, NK);
     let first = {
         let cfg = cx.src.chan("cfg");
@@ -1225,11 +1609,13 @@ fn autogrow_run(cx: &mut Run) {
                 }
                 7 => {
                     op = "push_bulk";
-                    let vals = h.fresh_n((o[1] % 7) as usize);
+                    // now and then a slice several times the capacity (more than one doubling)
+                    let n = if o[2] % 8 == 0 { o[1] % 40 } else { o[1] % 7 };
+                    let vals = h.fresh_n(n as usize);
                     let items: Vec<Tracked> = vals.iter().map(|&v| Tracked::new(v)).collect();
                     let r = q.push_bulk(&items);
                     drop(items);
-                    h.ev(format!("s{} push_bulk({:?}) -> {:?}", s, vals, r.as_ref().ok()));
+                    h.ev(format!("s{} push_bulk({}) -> {:?}", s, show(&vals), r.as_ref().ok()));
                     if let Some(n) = h.must_ok(op, r) {
                         if n != vals.len() {
                             h.bad("wrong_value", op, format!("reported {} pushed of {}", n, vals.len()));
@@ -1259,6 +1645,15 @@ fn autogrow_run(cx: &mut Run) {
                     h.ev(format!("s{} reserve({}) -> {}", s, n, if r.is_ok() { "ok" } else { "err" }));
                     if h.must_ok(op, r).is_some() && q.capacity() < m.len() + n {
                         h.bad("capacity_too_small", op, format!("capacity {} after reserve({}) at length {}", q.capacity(), n, m.len()));
+                    }
+                }
+                13 => {
+                    op = "debug";
+                    let got = format!("{:?}", q);
+                    let want = debug_text(m.iter());
+                    h.ev(format!("s{} {{:?}} -> {} characters", s, got.len()));
+                    if got != want {
+                        h.bad("wrong_sequence", op, format!("{{:?}} prints {}, a VecDeque holding the same elements prints {}", got, want));
                     }
                 }
                 _ => {
@@ -1387,8 +1782,8 @@ fn mmap_cfg(initial_capacity: usize, growth_factor: f64, sync_on_write: bool, re
     c
 }
 
-fn mmapvec_run(cx: &mut Run) {
-    const NK: u64 = 20;
+fn mmapvec_run<E: Elem + Copy + std::fmt::Debug>(cx: &mut Run) {
+    const NK: u64 = 22;
     let off = swarm(cx, NK);
     let (cap0, growth, sow) = {
         let cfg = cx.src.chan("cfg");
@@ -1396,11 +1791,13 @@ fn mmapvec_run(cx: &mut Run) {
     };
     let mut ops = planned_ops(cx, 4, 30);
     let mut h = H::new(cx, "MmapVec");
+    h.modulus = E::MODULUS;
+    let esz = std::mem::size_of::<E>();
     let dir = ScratchDir::new();
     h.ev(format!("create(initial_capacity={}, growth_factor={}, sync_on_write={})", cap0, growth, sow));
-    let first = MmapVec::<u64>::create(dir.file(0), mmap_cfg(cap0, growth, sow, false));
+    let first = MmapVec::<E>::create(dir.file(0), mmap_cfg(cap0, growth, sow, false));
     let Some(first) = h.must_ok("create", first) else { return };
-    let mut slots: Vec<(MmapVec<u64>, Vec<u64>)> = vec![(first, vec![])];
+    let mut slots: Vec<(MmapVec<E>, Vec<u64>)> = vec![(first, vec![])];
     while let Some(o) = ops.next() {
         let k = o[0] % NK;
         if off[k as usize] {
@@ -1416,7 +1813,7 @@ fn mmapvec_run(cx: &mut Run) {
                 0 | 1 | 2 => {
                     op = "push";
                     let x = h.fresh();
-                    let r = v.push(x);
+                    let r = v.push(E::mk(x));
                     h.ev(format!("s{} push({}) -> {}", s, x, if r.is_ok() { "ok" } else { "err" }));
                     if h.must_ok(op, r).is_some() {
                         m.push(x);
@@ -1424,7 +1821,7 @@ fn mmapvec_run(cx: &mut Run) {
                 }
                 3 => {
                     op = "pop";
-                    let r = v.pop();
+                    let r = v.pop().map(|e| e.val());
                     h.ev(format!("s{} pop() -> {:?}", s, r));
                     let e = m.pop();
                     h.same("wrong_value", op, "popped element", r, e);
@@ -1432,7 +1829,7 @@ fn mmapvec_run(cx: &mut Run) {
                 4 => {
                     op = "get";
                     let idx = (o[1] as usize) % (len + 2);
-                    let r = v.get(idx).copied();
+                    let r = v.get(idx).map(|e| e.val());
                     h.ev(format!("s{} get({}) -> {:?}", s, idx, r));
                     if idx >= len && r.is_some() {
                         h.bad("oob_not_reported", op, format!("get({}) on length {} returned {:?}", idx, len, r));
@@ -1446,7 +1843,7 @@ fn mmapvec_run(cx: &mut Run) {
                     let x = h.fresh();
                     let hit = match v.get_mut(idx) {
                         Some(r) => {
-                            *r = x;
+                            *r = E::mk(x);
                             true
                         }
                         None => false,
@@ -1483,9 +1880,10 @@ fn mmapvec_run(cx: &mut Run) {
                 }
                 9 => {
                     op = "extend";
-                    let vals = h.fresh_n((o[1] % 12) as usize);
-                    let r = if o[2] % 2 == 0 { v.extend(vals.clone()) } else { v.extend(vals.clone().into_iter().filter(|_| true)) };
-                    h.ev(format!("s{} extend({:?}) -> {}", s, vals, if r.is_ok() { "ok" } else { "err" }));
+                    let vals = h.fresh_n(E::size(o[1], 12));
+                    let items: Vec<E> = vals.iter().map(|&x| E::mk(x)).collect();
+                    let r = if o[2] % 2 == 0 { v.extend(items) } else { v.extend(items.into_iter().filter(|_| true)) };
+                    h.ev(format!("s{} extend({}) -> {}", s, show(&vals), if r.is_ok() { "ok" } else { "err" }));
                     if h.must_ok(op, r).is_some() {
                         m.extend(vals);
                     }
@@ -1501,9 +1899,9 @@ fn mmapvec_run(cx: &mut Run) {
                 }
                 11 => {
                     op = "resize";
-                    let n = (o[1] % 20) as usize;
+                    let n = E::size(o[1], 20);
                     let x = h.fresh();
-                    let r = v.resize(n, x);
+                    let r = v.resize(n, E::mk(x));
                     h.ev(format!("s{} resize({}, {}) -> {}", s, n, x, if r.is_ok() { "ok" } else { "err" }));
                     if h.must_ok(op, r).is_some() {
                         m.resize(n, x);
@@ -1511,10 +1909,11 @@ fn mmapvec_run(cx: &mut Run) {
                 }
                 12 => {
                     op = "push_bulk_simd";
-                    let vals = h.fresh_n((o[1] % 20) as usize);
-                    let r = v.push_bulk_simd(&vals);
-                    h.ev(format!("s{} push_bulk_simd({:?}) -> {}", s, vals, if r.is_ok() { "ok" } else { "err" }));
-                    if vals.len() >= 8 {
+                    let vals = h.fresh_n(E::size(o[1], 20));
+                    let items: Vec<E> = vals.iter().map(|&x| E::mk(x)).collect();
+                    let r = v.push_bulk_simd(&items);
+                    h.ev(format!("s{} push_bulk_simd({}) -> {}", s, show(&vals), if r.is_ok() { "ok" } else { "err" }));
+                    if simd_sized::<E>(vals.len()) {
                         h.cx.probe("mmapvec_simd_copy");
                     }
                     if h.must_ok(op, r).is_some() {
@@ -1524,8 +1923,11 @@ fn mmapvec_run(cx: &mut Run) {
                 13 => {
                     op = "pop_bulk_simd";
                     let n = (o[1] as usize) % (len + 2);
-                    let r = v.pop_bulk_simd(n);
-                    h.ev(format!("s{} pop_bulk_simd({}) -> {:?}", s, n, r.as_ref().ok()));
+                    let r = v.pop_bulk_simd(n).map(|got| got.iter().map(|e| e.val()).collect::<Vec<u64>>());
+                    h.ev(format!("s{} pop_bulk_simd({}) -> {:?}", s, n, r.as_ref().ok().map(|g| show(g))));
+                    if n <= len && simd_sized::<E>(n) {
+                        h.cx.probe("mmapvec_simd_pop");
+                    }
                     if n > len {
                         // more than there is: refusal (Err) is the reported outcome
                         if r.is_ok() {
@@ -1539,10 +1941,10 @@ fn mmapvec_run(cx: &mut Run) {
                 }
                 14 => {
                     op = "fill_range_simd";
-                    let start = (o[1] as usize) % (len + 2);
+                    let start = (o[1] as usize) % (len + 2) / (1 + (o[3] as usize / 2) % 3);
                     let end = (o[2] as usize) % (len + 3);
                     let x = h.fresh();
-                    let r = v.fill_range_simd(start..end, x);
+                    let r = v.fill_range_simd(start..end, E::mk(x));
                     h.ev(format!("s{} fill_range_simd({}..{}, {}) -> {}", s, start, end, x, if r.is_ok() { "ok" } else { "err" }));
                     if end > len {
                         if r.is_ok() {
@@ -1553,13 +1955,59 @@ fn mmapvec_run(cx: &mut Run) {
                         // empty range: nothing to do, Ok or Err both leave the content alone
                     } else if h.must_ok(op, r).is_some() {
                         m[start..end].fill(x);
+                        if esz == 1 && end - start >= 64 {
+                            h.cx.probe("mmapvec_simd_byte_fill");
+                        }
                     }
                 }
                 15 => {
                     op = "iter";
-                    let vals: Vec<u64> = (&*v).into_iter().copied().collect();
+                    let vals: Vec<u64> = (&*v).into_iter().map(|e| e.val()).collect();
                     h.ev(format!("s{} iterate -> {} elements", s, vals.len()));
                     h.seq(op, "(&v).into_iter()", &vals, m);
+                    // the iterator's own bookkeeping after a partial walk
+                    let mut it = (&*v).into_iter();
+                    let skip = (o[1] as usize) % (len + 1);
+                    for _ in 0..skip {
+                        it.next();
+                    }
+                    h.same("wrong_value", op, "remaining length of a partly consumed iterator (len(), size_hint())", (it.len(), it.size_hint()), (len - skip, (len - skip, Some(len - skip))));
+                    // statistics that restate the sequence's size
+                    let st = v.stats();
+                    h.same("wrong_value", "stats", "stats().(len, capacity, element_size)", (st.len, st.capacity, st.element_size), (len, v.capacity(), esz));
+                }
+                20 => {
+                    op = "as_mut_slice";
+                    match o[1] % 3 {
+                        0 if len >= 2 => {
+                            let (i, j) = ((o[2] as usize) % len, (o[2] as usize / 64) % len);
+                            v.as_mut_slice().swap(i, j);
+                            m.swap(i, j);
+                            h.ev(format!("s{} as_mut_slice().swap({}, {})", s, i, j));
+                        }
+                        1 if len >= 1 => {
+                            let idx = (o[2] as usize) % len;
+                            let x = h.fresh();
+                            let sl = v.as_mut_slice();
+                            if sl.len() == len {
+                                sl[idx] = E::mk(x);
+                                m[idx] = x;
+                            }
+                            h.ev(format!("s{} as_mut_slice()[{}] = {}", s, idx, x));
+                        }
+                        _ => {
+                            v.as_mut_slice().reverse();
+                            m.reverse();
+                            h.ev(format!("s{} as_mut_slice().reverse()", s));
+                        }
+                    }
+                }
+                21 => {
+                    // continued use across a sync(): nothing visible changes
+                    op = "sync";
+                    let r = v.sync();
+                    h.ev(format!("s{} sync() -> {}", s, if r.is_ok() { "ok" } else { "err" }));
+                    h.must_ok(op, r);
                 }
                 _ => {
                     op = match k {
@@ -1573,10 +2021,29 @@ fn mmapvec_run(cx: &mut Run) {
         }
         if (k == 16 || k == 17) && !h.failed() {
             if slots.len() == 1 {
-                let c = MmapVec::<u64>::create(dir.file(1), mmap_cfg((o[1] % 5) as usize, growth, false, false));
-                h.ev(format!("create second vector (initial_capacity={})", o[1] % 5));
+                // configuration of the second vector: hand-made, a builder product or a preset
+                let (cfg2, what) = match o[2] % 4 {
+                    0 => (MmapVecConfig::builder().with_initial_capacity((o[1] % 5) as usize).with_growth_factor(growth).with_sync_on_write(sow).build(), format!("builder(initial_capacity={})", o[1] % 5)),
+                    1 => (MmapVecConfig::memory_optimized(), "memory_optimized()".to_string()),
+                    _ => (mmap_cfg((o[1] % 5) as usize, growth, false, false), format!("initial_capacity={}", o[1] % 5)),
+                };
+                let c = MmapVec::<E>::create(dir.file(1), cfg2);
+                h.ev(format!("create second vector ({})", what));
                 match h.must_ok("create", c) {
-                    Some(c) => slots.push((c, vec![])),
+                    Some(mut c) => {
+                        let mut mc = vec![];
+                        if o[2] % 8 >= 4 {
+                            // it starts as a copy of the first one, so the two share content
+                            // (later steps change one element at a time)
+                            let r = c.copy_from_simd(&slots[0].0);
+                            h.ev(format!("s1 copy_from_simd(s0) -> {}", if r.is_ok() { "ok" } else { "err" }));
+                            if h.must_ok("copy_from_simd", r).is_none() {
+                                break;
+                            }
+                            mc = slots[0].1.clone();
+                        }
+                        slots.push((c, mc));
+                    }
                     None => break,
                 }
             }
@@ -1596,8 +2063,8 @@ fn mmapvec_run(cx: &mut Run) {
                 }
             } else {
                 let len = a.1.len();
-                let start = (o[1] as usize) % (len + 2);
-                let end = (o[2] as usize) % (len + 3);
+                // a third of the comparisons cover as much as both vectors hold
+                let (start, end) = if o[1] % 3 == 0 { (0, len.min(b.1.len())) } else { ((o[1] as usize) % (len + 2), (o[2] as usize) % (len + 3)) };
                 let r = a.0.compare_range_simd(start..end, &b.0);
                 h.ev(format!("s{} compare_range_simd({}..{}, s{}) -> {:?}", s, start, end, other, r.as_ref().ok()));
                 let n = end.saturating_sub(start);
@@ -1607,6 +2074,9 @@ fn mmapvec_run(cx: &mut Run) {
                     }
                 } else if let Some(got) = h.must_ok(op, r) {
                     let exp = n == 0 || a.1[start..end] == b.1[..n];
+                    if simd_sized::<E>(n) {
+                        h.cx.probe(if exp { "mmapvec_simd_compare_equal" } else { "mmapvec_simd_compare_differs" });
+                    }
                     h.same("wrong_value", op, "range equality", got, exp);
                 }
             }
@@ -1621,32 +2091,32 @@ fn mmapvec_run(cx: &mut Run) {
             let m = std::mem::take(&mut slots[s].1);
             let file = dir.file(s);
             // replace by a throw-away vector so that the old handle is closed first
-            let tmp = MmapVec::<u64>::create(dir.file(2), mmap_cfg(1, growth, false, false));
+            let tmp = MmapVec::<E>::create(dir.file(2), mmap_cfg(1, growth, false, false));
             let Some(tmp) = h.must_ok("create", tmp) else { break };
             slots[s].0 = tmp;
             let ro = k == 19;
-            let r = MmapVec::<u64>::open(&file, mmap_cfg(cap0, growth, sow, ro));
+            let r = MmapVec::<E>::open(&file, mmap_cfg(cap0, growth, sow, ro));
             h.ev(format!("s{} close, open(read_only={}) -> {}", s, ro, if r.is_ok() { "ok" } else { "err" }));
             h.cx.probe("reopen");
             let Some(mut v) = h.must_ok(op, r) else { break };
-            let got: Vec<u64> = v.as_slice().to_vec();
+            let got: Vec<u64> = v.as_slice().iter().map(|e| e.val()).collect();
             if !h.seq(op, "content after reopen", &got, &m) {
                 break;
             }
             if ro {
                 let x = h.fresh();
-                let refused = (v.push(x).is_err(), v.pop().is_none(), v.get_mut(0).is_none(), v.clear().is_err());
+                let refused = (v.push(E::mk(x)).is_err(), v.pop().is_none(), v.get_mut(0).is_none(), v.clear().is_err());
                 h.ev(format!("s{} read-only: push/pop/get_mut/clear refused = {:?}", s, refused));
                 if refused != (true, true, true, true) {
                     h.bad("wrong_value", op, format!("a read-only vector accepted a mutation: refused(push,pop,get_mut,clear)={:?}", refused));
                     break;
                 }
-                let got: Vec<u64> = v.as_slice().to_vec();
+                let got: Vec<u64> = v.as_slice().iter().map(|e| e.val()).collect();
                 if !h.seq(op, "content of read-only vector", &got, &m) {
                     break;
                 }
                 drop(v);
-                let r = MmapVec::<u64>::open(&file, mmap_cfg(cap0, growth, sow, false));
+                let r = MmapVec::<E>::open(&file, mmap_cfg(cap0, growth, sow, false));
                 h.ev(format!("s{} close, open(read_only=false) -> {}", s, if r.is_ok() { "ok" } else { "err" }));
                 let Some(v2) = h.must_ok(op, r) else { break };
                 v = v2;
@@ -1660,7 +2130,7 @@ fn mmapvec_run(cx: &mut Run) {
             h.cx.probe("reallocated_with_elements");
         }
         h.cell(op, "done");
-        let views: Vec<(&[u64], &[u64])> = slots.iter().map(|(c, m)| (c.as_slice(), m.as_slice())).collect();
+        let views: Vec<(&[E], &[u64])> = slots.iter().map(|(c, m)| (c.as_slice(), m.as_slice())).collect();
         if !check_slices(&mut h, op, &views) {
             break;
         }
@@ -1680,11 +2150,12 @@ fn mmapvec_run(cx: &mut Run) {
 // capacity.  (The constructor puts its scratch file into the system temp directory.)
 
 fn mmap_simd_run(cx: &mut Run) {
-    const NK: u64 = 6;
+    const NK: u64 = 10;
     let off = swarm(cx, NK);
-    let mut ops = planned_ops(cx, 3, 10);
+    let mut ops = planned_ops(cx, 3, 14);
     let mut h = H::new(cx, "MmapVec");
     let mut slots: Vec<(MmapVec<u64>, Vec<u64>)> = vec![];
+    let mut caps: Vec<usize> = vec![];
     let mut created = 0;
     while let Some(o) = ops.next() {
         let k = if slots.is_empty() { 0 } else { o[0] % NK };
@@ -1697,8 +2168,8 @@ fn mmap_simd_run(cx: &mut Run) {
                 op = "with_capacity_simd";
                 // capacities above the default initial capacity (1024) are only asked for once
                 // another vector exists, and never more than 16000 elements
-                let caps: &[usize] = if created == 0 { &[8, 0, 1, 100, 1024] } else { &[8, 0, 1, 100, 1024, 1500, 8000, 8190, 9000, 12000] };
-                let cap = caps[(o[1] as usize) % caps.len()];
+                let sizes: &[usize] = if created == 0 { &[8, 0, 1, 100, 1024] } else { &[8, 0, 1, 100, 1024, 1500, 8000, 8180, 8190, 9000, 12000] };
+                let cap = sizes[(o[1] as usize) % sizes.len()];
                 if slots.len() == 3 {
                     h.ev("drop s0".into());
                     slots.remove(0);
@@ -1726,13 +2197,64 @@ fn mmap_simd_run(cx: &mut Run) {
                     slots[s].1.push(x);
                 }
             }
-            _ => {
+            5 => {
                 op = "pop";
                 let s = (o[3] as usize) % slots.len();
                 let r = slots[s].0.pop();
                 h.ev(format!("s{} pop() -> {:?}", s, r));
                 let e = slots[s].1.pop();
                 h.same("wrong_value", op, "popped element", r, e);
+            }
+            6 | 9 => {
+                // fill the vector to within two elements of its capacity (or just past it), so
+                // that the next pushes grow a mapping that is larger than the minimum one
+                op = "resize";
+                let s = (o[3] as usize) % slots.len();
+                let cap = slots[s].0.capacity();
+                let n = (cap + (o[1] % 5) as usize).saturating_sub(2);
+                let x = h.fresh();
+                let r = slots[s].0.resize(n, x);
+                h.ev(format!("s{} resize({} = capacity {:+}, {}) -> {}", s, n, n as i64 - cap as i64, x, if r.is_ok() { "ok" } else { "err" }));
+                if h.must_ok(op, r).is_some() {
+                    slots[s].1.resize(n, x);
+                    // ... and a few pushes straight away
+                    for _ in 0..o[2] % 4 {
+                        let y = h.fresh();
+                        let r = slots[s].0.push(y);
+                        h.ev(format!("s{} push({}) -> {}", s, y, if r.is_ok() { "ok" } else { "err" }));
+                        if h.must_ok("push", r).is_none() {
+                            break;
+                        }
+                        slots[s].1.push(y);
+                    }
+                }
+            }
+            7 => {
+                op = "push_bulk_simd";
+                let s = (o[3] as usize) % slots.len();
+                let vals = h.fresh_n((o[1] % 20) as usize);
+                let r = slots[s].0.push_bulk_simd(&vals);
+                h.ev(format!("s{} push_bulk_simd({:?}) -> {}", s, vals, if r.is_ok() { "ok" } else { "err" }));
+                if h.must_ok(op, r).is_some() {
+                    slots[s].1.extend(vals);
+                }
+            }
+            8 if o[2] % 2 == 0 => {
+                op = "truncate";
+                let s = (o[3] as usize) % slots.len();
+                let n = (o[1] % 12) as usize;
+                let r = slots[s].0.truncate(n);
+                h.ev(format!("s{} truncate({}) -> {}", s, n, if r.is_ok() { "ok" } else { "err" }));
+                if h.must_ok(op, r).is_some() {
+                    slots[s].1.truncate(n);
+                }
+            }
+            _ => {
+                op = "shrink_to_fit";
+                let s = (o[3] as usize) % slots.len();
+                let r = slots[s].0.shrink_to_fit();
+                h.ev(format!("s{} shrink_to_fit() -> {}", s, if r.is_ok() { "ok" } else { "err" }));
+                h.must_ok(op, r);
             }
         }
         if h.failed() {
@@ -1743,6 +2265,22 @@ fn mmap_simd_run(cx: &mut Run) {
         if !check_slices(&mut h, op, &views) {
             break;
         }
+        let meta_ok = slots.iter().all(|(c, m)| c.len() == m.len() && c.is_empty() == m.is_empty() && c.capacity() >= m.len());
+        if !meta_ok {
+            h.bad("wrong_value", op, "len()/is_empty()/capacity() disagree with the model".to_string());
+            break;
+        }
+        let caps_now: Vec<usize> = slots.iter().map(|x| x.0.capacity()).collect();
+        if op != "with_capacity_simd" && caps_now.len() == caps.len() {
+            // (64 KiB is the smallest mapping: 8182 u64 elements behind the header)
+            if caps.iter().zip(caps_now.iter()).any(|(a, b)| b > a && *a > 8182) {
+                h.cx.probe("mmapvec_grew_beyond_min_mapping");
+            }
+            if caps.iter().zip(caps_now.iter()).any(|(a, b)| b > a && *a <= 8182 && *b > 8182) {
+                h.cx.probe("mmapvec_grew_across_min_mapping");
+            }
+        }
+        caps = caps_now;
     }
     drop(slots);
     h.cx.nontrivial = h.cx.steps >= 3;
@@ -1752,20 +2290,83 @@ fn mmap_simd_run(cx: &mut Run) {
 // string vectors
 
 /// Short strings over a two-letter alphabet (so duplicates, shared prefixes and overlaps
-/// are frequent), occasionally a third letter, occasionally long.  Never a NUL byte.
+/// are frequent), occasionally a third letter (now and then a two-byte one), occasionally
+/// long.  Never a NUL byte.
 fn gen_str(o: [u64; 4]) -> String {
     let len = match o[1] % 16 {
         15 => 17 + (o[1] / 16 % 24) as usize,
         14 => 9 + (o[1] / 16 % 4) as usize,
         x => (x % 9) as usize,
     };
-    let mut s = String::with_capacity(len);
+    let third = if o[3] / 56 % 4 == 3 { '\u{e9}' } else { 'c' };
+    let mut s = String::with_capacity(len + 1);
     for i in 0..len {
         let bit = (o[2] >> (i % 20)) & 1;
-        let c = if o[3] % 7 == 0 && i == (o[3] / 7 % 8) as usize { 'c' } else if bit == 1 { 'b' } else { 'a' };
+        let c = if o[3] % 7 == 0 && i == (o[3] / 7 % 8) as usize { third } else if bit == 1 { 'b' } else { 'a' };
         s.push(c);
     }
     s
+}
+
+fn flip(c: char) -> char {
+    if c == 'a' {
+        'b'
+    } else {
+        'a'
+    }
+}
+
+/// A string for a container that already holds `pool`: in a third of the cases it is derived
+/// from one of those (the same again, one position changed anywhere - also far behind a long
+/// common prefix -, one character more or less, the old one as its suffix, the old one
+/// twice), otherwise an unrelated `gen_str`.
+fn gen_rel(o: [u64; 4], pool: &[String]) -> String {
+    let sel = o[3] / 224;
+    if pool.is_empty() || sel % 3 != 0 {
+        return gen_str(o);
+    }
+    let variant = (sel / 3) % 9;
+    // the last two variants work on the longest string held (long strings are rare, and it is
+    // behind a long common prefix that the comparison loops change gear)
+    let base = if variant >= 7 { pool.iter().max_by_key(|x| x.len()).unwrap() } else { &pool[(o[2] as usize) % pool.len()] };
+    let mut b: Vec<char> = base.chars().collect();
+    match variant {
+        0 => {}
+        1 => {
+            if !b.is_empty() {
+                let i = (o[1] as usize) % b.len();
+                b[i] = flip(b[i]);
+            }
+        }
+        2 => b.push(if o[1] % 2 == 0 { 'a' } else { 'b' }),
+        3 => {
+            b.pop();
+        }
+        4 => {
+            if let Some(l) = b.last_mut() {
+                *l = flip(*l);
+            }
+        }
+        5 => b.insert(0, if o[1] % 2 == 0 { 'a' } else { 'b' }),
+        6 | 7 if b.len() <= 24 => {
+            let again = b.clone();
+            b.extend(again);
+        }
+        _ => {
+            // one position in the last quarter changed
+            if !b.is_empty() {
+                let q = (b.len() + 3) / 4;
+                let i = b.len() - 1 - (o[1] as usize) % q;
+                b[i] = flip(b[i]);
+            }
+        }
+    }
+    b.into_iter().collect()
+}
+
+/// the first `n` characters of `s`
+fn prefix_chars(s: &str, n: usize) -> String {
+    s.chars().take(n).collect()
 }
 
 fn check_strs<'x>(h: &mut H, op: &str, what: &str, real: impl Iterator<Item = Option<&'x str>>, model: &[String]) -> bool {
@@ -1797,7 +2398,7 @@ fn sortable_run(cx: &mut Run) {
             match k {
                 0 | 1 | 2 => {
                     op = if k == 2 { "push" } else { "push_str" };
-                    let x = gen_str(o);
+                    let x = gen_rel(o, m);
                     let r = if k == 2 { v.push(x.clone()) } else { v.push_str(&x) };
                     h.ev(format!("s{} {}({:?}) -> {:?}", s, op, x, r.as_ref().ok()));
                     if let Some(id) = h.must_ok(op, r) {
@@ -1872,7 +2473,7 @@ fn sortable_run(cx: &mut Run) {
                                     let g2: Vec<Option<String>> = (0..len + 1).map(|i| v.get_sorted(i).map(|x| x.to_string())).collect();
                                     let e2: Vec<Option<String>> = (0..len + 1).map(|i| exp.get(i).cloned()).collect();
                                     h.same("wrong_sequence", op, "get_sorted(0..=len)", g2, e2);
-                                    let needle = gen_str([o[0], o[2], o[1], o[3]]);
+                                    let needle = gen_rel([o[0], o[2], o[1], o[3]], m);
                                     match v.binary_search(&needle) {
                                         Ok(i) => {
                                             if exp.get(i) != Some(&needle) {
@@ -1953,6 +2554,167 @@ fn sortable_run(cx: &mut Run) {
     h.cx.nontrivial = h.cx.steps >= 3;
 }
 
+/// SortableStrVec with enough strings for the code that small vectors never reach: the
+/// distribution passes of radix_sort (32 strings and more per bucket) and the block-wise
+/// binary_search (more than 512 strings).  One run = one bulk construction, then a few
+/// rounds of (sort of some kind, read the sorted view, search), with a push in between.
+fn sortable_bulk_run(cx: &mut Run) {
+    let (n, how, rounds) = {
+        let cfg = cx.src.chan("cfg");
+        (*cfg.pick(&[31u64, 32, 33, 40, 64, 100, 300, 511, 512, 513, 520, 600]), cfg.below(3), 1 + cfg.below(3))
+    };
+    let round_cfg: Vec<(u64, bool)> = {
+        let cfg = cx.src.chan("cfg");
+        (0..rounds).map(|_| (cfg.below(4), cfg.chance(1, 2))).collect()
+    };
+    let mut ops = cx.src.ops("ops", n + rounds);
+    let mut h = H::new(cx, "SortableStrVec");
+    let mut m: Vec<String> = vec![];
+    let mut last = [0u64; 4];
+    while (m.len() as u64) < n {
+        let Some(o) = ops.next() else { break };
+        // many distinct strings are wanted here: unrelated ones draw their length bits afresh
+        let x = gen_rel([o[0], o[1] | 4, o[2], o[3]], &m);
+        m.push(x);
+        last = o;
+    }
+    let built = match how {
+        0 => {
+            h.ev(format!("from_iter({} strings)", m.len()));
+            SortableStrVec::from_iter(m.iter())
+        }
+        1 => {
+            h.ev(format!("new(), {} x push_str", m.len()));
+            let mut v = SortableStrVec::new();
+            let mut r = Ok(v.len());
+            for x in &m {
+                r = v.push_str(x);
+                if r.is_err() {
+                    break;
+                }
+            }
+            r.map(|_| v)
+        }
+        _ => {
+            h.ev(format!("with_capacity({}), {} x push", m.len() / 2, m.len()));
+            let mut v = SortableStrVec::with_capacity(m.len() / 2);
+            let mut r = Ok(v.len());
+            for x in &m {
+                r = v.push(x.clone());
+                if r.is_err() {
+                    break;
+                }
+            }
+            r.map(|_| v)
+        }
+    };
+    let Some(mut v) = h.must_ok("from_iter", built) else { return };
+    for (round, &(kind, push_between)) in round_cfg.iter().enumerate() {
+        if v.len() != m.len() || !check_strs(&mut h, "push_str", "get(0..len)", (0..m.len()).map(|i| v.get(i)), &m) {
+            return;
+        }
+        let op = match kind {
+            0 => "sort",
+            1 => "radix_sort",
+            2 => "sort_by_length",
+            _ => "sort_by",
+        };
+        let r = match kind {
+            0 => v.sort(),
+            1 => v.radix_sort(),
+            2 => v.sort_by_length(),
+            _ => v.sort_by(|a, b| b.cmp(a)),
+        };
+        h.ev(format!("{}() over {} strings -> {}", op, m.len(), if r.is_ok() { "ok" } else { "err" }));
+        if h.must_ok(op, r).is_none() {
+            return;
+        }
+        if kind == 1 && m.len() >= 32 {
+            h.cx.probe("radix_distribution_pass");
+        }
+        let got: Vec<String> = v.iter_sorted().map(|x| x.to_string()).collect();
+        let mut exp = m.clone();
+        match kind {
+            2 => {
+                let mut a = got.clone();
+                a.sort();
+                exp.sort();
+                if a != exp || !got.windows(2).all(|w| w[0].len() <= w[1].len()) {
+                    h.bad("wrong_sequence", op, format!("the sorted view of {} strings is not the content ordered by length (first strings: {:?})", m.len(), &got[..got.len().min(12)]));
+                    return;
+                }
+            }
+            3 => {
+                exp.sort_by(|a, b| b.cmp(a));
+                if got != exp {
+                    let at = got.iter().zip(exp.iter()).position(|(a, b)| a != b).unwrap_or(got.len().min(exp.len()));
+                    h.bad("wrong_sequence", op, format!("sorted view ({} strings) differs from the sorted content ({} strings) at position {}: {:?} vs {:?}", got.len(), exp.len(), at, got.get(at), exp.get(at)));
+                    return;
+                }
+            }
+            _ => {
+                exp.sort();
+                if got != exp {
+                    let at = got.iter().zip(exp.iter()).position(|(a, b)| a != b).unwrap_or(got.len().min(exp.len()));
+                    h.bad("wrong_sequence", op, format!("sorted view ({} strings) differs from the sorted content ({} strings) at position {}: {:?} vs {:?}", got.len(), exp.len(), at, got.get(at), exp.get(at)));
+                    return;
+                }
+                let g2: Vec<Option<String>> = [0, exp.len() / 2, exp.len().saturating_sub(1), exp.len()].iter().map(|&i| v.get_sorted(i).map(|x| x.to_string())).collect();
+                let e2: Vec<Option<String>> = [0, exp.len() / 2, exp.len().saturating_sub(1), exp.len()].iter().map(|&i| exp.get(i).cloned()).collect();
+                if !h.same("wrong_sequence", op, "get_sorted(0, len/2, len-1, len)", g2, e2) {
+                    return;
+                }
+                if exp.len() > 512 {
+                    h.cx.probe("block_binary_search");
+                }
+                // needles: stored strings from both ends, the middle and the block borders, and
+                // near misses of them
+                let mut needles: Vec<String> = [0usize, 1, 255, 256, 257, 511, 512, exp.len() / 2, exp.len().saturating_sub(2), exp.len().saturating_sub(1)].iter().filter_map(|&i| exp.get(i).cloned()).collect();
+                for j in 0..6u64 {
+                    needles.push(gen_rel([0, last[1] + j * 7, last[2] + j * 13, 224 * 3 * ((last[3] + j) % 7)], &exp));
+                }
+                needles.push(String::new());
+                needles.push("c".repeat(3));
+                for needle in needles {
+                    let r = v.binary_search(&needle);
+                    h.ev(format!("binary_search({:?}) -> {:?}", needle, r));
+                    match r {
+                        Ok(i) => {
+                            if exp.get(i) != Some(&needle) {
+                                h.bad("wrong_value", "binary_search", format!("binary_search({:?}) -> Ok({}) but position {} of the sorted view of {} strings holds {:?}", needle, i, i, exp.len(), exp.get(i)));
+                            }
+                        }
+                        Err(i) => {
+                            let want = exp.partition_point(|x| x < &needle);
+                            if exp.binary_search(&needle).is_ok() || i != want {
+                                h.bad("wrong_value", "binary_search", format!("binary_search({:?}) -> Err({}) in a sorted view of {} strings; present: {}, insertion point: {}", needle, i, exp.len(), exp.binary_search(&needle).is_ok(), want));
+                            }
+                        }
+                    }
+                    if h.failed() {
+                        return;
+                    }
+                }
+            }
+        }
+        if push_between && round + 1 < round_cfg.len() {
+            if let Some(o) = ops.next() {
+                let x = gen_rel(o, &m);
+                let r = v.push_str(&x);
+                h.ev(format!("push_str({:?}) -> {:?}", x, r.as_ref().ok()));
+                if let Some(id) = h.must_ok("push_str", r) {
+                    h.same("wrong_value", "push_str", "returned id", id, m.len());
+                    m.push(x);
+                }
+            }
+        }
+        if h.failed() {
+            return;
+        }
+    }
+    h.cx.nontrivial = m.len() >= 2;
+}
+
 fn fixedlen_run<const N: usize>(h: &mut H, ops: &mut Ops, off: &[bool], nk: u64) {
     let mut v: FixedLenStrVec<N> = FixedLenStrVec::new();
     let mut m: Vec<String> = vec![];
@@ -1967,7 +2729,7 @@ fn fixedlen_run<const N: usize>(h: &mut H, ops: &mut Ops, off: &[bool], nk: u64)
         match k {
             0 | 1 | 2 | 3 => {
                 op = "push";
-                let x = gen_str(o);
+                let x = gen_rel(o, &m);
                 let r = v.push(&x);
                 h.ev(format!("push({:?}) -> {}", x, if r.is_ok() { "ok" } else { "refused" }));
                 if x.len() > N {
@@ -1993,15 +2755,32 @@ fn fixedlen_run<const N: usize>(h: &mut H, ops: &mut Ops, off: &[bool], nk: u64)
             }
             5 => {
                 op = "find_exact";
-                let x = if len > 0 && o[1] % 2 == 0 { m[(o[2] as usize) % len].clone() } else { gen_str(o) };
+                let x = if len > 0 && o[1] % 2 == 0 { m[(o[2] as usize) % len].clone() } else { gen_rel(o, &m) };
                 let r = v.find_exact(&x);
                 h.ev(format!("find_exact({:?}) -> {:?}", x, r));
                 h.same("wrong_value", op, "first index", r, m.iter().position(|y| *y == x));
             }
             6 => {
                 op = "count_prefix";
-                let mut x = gen_str(o);
-                x.truncate((o[1] % 4) as usize);
+                // short prefixes, and prefixes of 8 and more bytes (the length from which the
+                // container switches to its bulk comparison), mostly cut from a stored string
+                let src = if len > 0 && o[2] % 2 == 0 { m[(o[2] as usize / 2) % len].clone() } else { gen_rel(o, &m) };
+                let n = match o[1] % 8 {
+                    x @ 0..=3 => x as usize,
+                    x => 4 + (o[1] / 8 % 3) as usize * (x as usize - 3),
+                };
+                let mut x = prefix_chars(&src, n);
+                // ... or more than 8 characters of the longest stored string with one position
+                // behind the first 8 changed
+                if let Some(l) = m.iter().filter(|y| y.chars().count() > 8).max_by_key(|y| y.len()) {
+                    if o[3] / 2 % 4 == 0 {
+                        let mut b: Vec<char> = l.chars().collect();
+                        b.truncate(9 + (o[2] as usize / 2) % (b.len() - 8));
+                        let i = 8 + (o[1] as usize / 8) % (b.len() - 8);
+                        b[i] = flip(b[i]);
+                        x = b.into_iter().collect();
+                    }
+                }
                 let r = v.count_prefix(&x);
                 h.ev(format!("count_prefix({:?}) -> {}", x, r));
                 h.same("wrong_value", op, "count", r, m.iter().filter(|y| y.starts_with(&x)).count());
@@ -2031,13 +2810,14 @@ fn fixedlen_run<const N: usize>(h: &mut H, ops: &mut Ops, off: &[bool], nk: u64)
 fn fixedlen(cx: &mut Run) {
     const NK: u64 = 8;
     let off = swarm(cx, NK);
-    let n = *cx.src.chan("cfg").pick(&[4usize, 8, 16]);
+    let n = *cx.src.chan("cfg").pick(&[4usize, 8, 16, 32]);
     let mut ops = planned_ops(cx, 3, 24);
     let mut h = H::new(cx, "FixedLenStrVec");
     match n {
         4 => fixedlen_run::<4>(&mut h, &mut ops, &off, NK),
         8 => fixedlen_run::<8>(&mut h, &mut ops, &off, NK),
-        _ => fixedlen_run::<16>(&mut h, &mut ops, &off, NK),
+        16 => fixedlen_run::<16>(&mut h, &mut ops, &off, NK),
+        _ => fixedlen_run::<32>(&mut h, &mut ops, &off, NK),
     }
     h.cx.nontrivial = h.cx.steps >= 3;
 }
@@ -2063,7 +2843,7 @@ macro_rules! bitpacked_run {
                     match k {
                         0 | 1 | 2 => {
                             op = "push";
-                            let x = gen_str(o);
+                            let x = gen_rel(o, m);
                             let r = v.push(&x);
                             h.ev(format!("s{} push({:?}) -> {:?}", s, x, r.as_ref().ok()));
                             if let Some(id) = h.must_ok(op, r) {
@@ -2096,7 +2876,23 @@ macro_rules! bitpacked_run {
                         }
                         5 => {
                             op = "find_simd";
-                            let x = if len > 0 && o[1] % 2 == 0 { m[(o[2] as usize) % len].clone() } else { gen_str(o) };
+                            // a stored string, a relative of one, or - when a string of more than 32
+                            // characters is held - that string with one position behind the first
+                            // 32 changed (the search compares 32 bytes at a time, then the rest)
+                            let long = m.iter().filter(|y| y.chars().count() > 32).max_by_key(|y| y.len());
+                            let x = match (o[1] % 4, long) {
+                                (0, _) if len > 0 => m[(o[2] as usize) % len].clone(),
+                                (1, Some(l)) => {
+                                    let mut b: Vec<char> = l.chars().collect();
+                                    let i = 32 + (o[2] as usize) % (b.len() - 32);
+                                    b[i] = flip(b[i]);
+                                    b.into_iter().collect()
+                                }
+                                _ => gen_rel([o[0], o[1] / 4, o[2], o[3]], m),
+                            };
+                            if x.len() >= 32 && m.iter().any(|y| y.len() == x.len() && *y != x && y.as_bytes()[..32] == x.as_bytes()[..32]) {
+                                h.cx.probe("find_same_length_differs_after_32_bytes");
+                            }
                             let r = v.find_simd(&x);
                             h.ev(format!("s{} find_simd({:?}) -> {:?}", s, x, r));
                             h.same("wrong_value", op, "first index", r, m.iter().position(|y| *y == x));
@@ -2186,7 +2982,7 @@ fn advanced_run(cx: &mut Run, level: u8) {
             match k {
                 0 | 1 | 2 | 3 => {
                     op = "push";
-                    let x = gen_str(o);
+                    let x = gen_rel(o, m);
                     let r = v.push(&x);
                     h.ev(format!("s{} push({:?}) -> {:?}", s, x, r.as_ref().ok()));
                     if let Some(id) = h.must_ok(op, r) {
@@ -2238,7 +3034,18 @@ fn advanced_run(cx: &mut Run, level: u8) {
         }
         if op == "drop" {
             h.ev(format!("s{} drop vector", s));
-            let v = mk(&mut h);
+            // the default configuration is level 1: there the plain constructors take turns
+            let v = match (level, o[1] % 3) {
+                (1, 1) => {
+                    h.ev("new()".into());
+                    AdvancedStringVec::new()
+                }
+                (1, 2) => {
+                    h.ev(format!("with_capacity({})", o[2] % 9));
+                    AdvancedStringVec::with_capacity((o[2] % 9) as usize)
+                }
+                _ => mk(&mut h),
+            };
             slots[s] = (v, vec![]);
         }
         if h.failed() {
@@ -2267,12 +3074,16 @@ fn advanced_run(cx: &mut Run, level: u8) {
 /// ZoSortedStrVec is immutable: one run = one construction from a seeded list + read-out.
 fn zosorted_run(cx: &mut Run) {
     let how = cx.src.chan("cfg").below(4);
-    let mut ops = planned_ops(cx, 0, 14);
+    // mostly a handful of strings; in a third of the runs enough of them that the boundary
+    // bit vector spans several 256-bit rank/select blocks
+    let many = cx.src.chan("cfg").chance(1, 3);
+    let mut ops = if many { planned_ops(cx, 14, 80) } else { planned_ops(cx, 0, 14) };
     let mut h = H::new(cx, "ZoSortedStrVec");
     let mut input: Vec<String> = vec![];
     let mut probe_o = [0u64; 4];
     while let Some(o) = ops.next() {
-        input.push(gen_str(o));
+        let x = gen_rel(o, &input);
+        input.push(x);
         probe_o = o;
     }
     let mut exp = input.clone();
@@ -2325,9 +3136,48 @@ fn zosorted_run(cx: &mut Run) {
         h.bad("oob_not_reported", "get", format!("get({}) on length {} returned Some", n, n));
         return;
     }
+    let bits: usize = exp.iter().map(|x| x.len() + 1).sum();
+    if bits > 256 {
+        h.cx.probe("zosorted_several_rank_blocks");
+    }
+    // the iterator's own bookkeeping, and a clone
+    {
+        let mut it = z.iter();
+        let skip = (probe_o[1] as usize) % (n + 1);
+        for _ in 0..skip {
+            it.next();
+        }
+        if !h.same("wrong_value", "iter", "remaining length of a partly consumed iterator", (it.len(), it.size_hint()), (n - skip, (n - skip, Some(n - skip)))) {
+            return;
+        }
+        let c = z.clone();
+        h.ev(format!("clone() -> len {}", c.len()));
+        if c.len() != n || !check_strs(&mut h, "clone", "clone: get(0..len)", (0..n).map(|i| c.get(i)), &exp) {
+            return;
+        }
+    }
     let mut needles: Vec<String> = exp.iter().take(4).cloned().collect();
+    needles.extend(exp.iter().rev().take(2).cloned());
     needles.push(gen_str([0, probe_o[2], probe_o[1], 1]));
     needles.push(gen_str([0, probe_o[3], probe_o[2], 0]));
+    needles.push(gen_rel([0, probe_o[1], probe_o[2], 224 * 3 * (probe_o[3] % 7)], &exp));
+    needles.push(gen_rel([0, probe_o[2], probe_o[3], 224 * 3 * (probe_o[1] % 7)], &exp));
+    // range(start, end): the strings x with start <= x < end, in order.  (With duplicates in
+    // the content the boundary indices are any-of-several; only duplicate-free content is checked.)
+    if exp.windows(2).all(|w| w[0] != w[1]) {
+        for w in needles.windows(2).take(6) {
+            let (a, b) = (&w[0], &w[1]);
+            for (start, end) in [(a, b), (b, a)] {
+                let got: Vec<String> = z.range(start, end).map(|x| x.to_string()).collect();
+                let want: Vec<String> = exp.iter().filter(|x| *x >= start && *x < end).cloned().collect();
+                h.ev(format!("range({:?}, {:?}) -> {} strings", start, end, got.len()));
+                if got != want {
+                    h.bad("wrong_sequence", "range", format!("range({:?}, {:?}) yields {:?}, the content {:?} has {:?} in that range", start, end, got, exp, want));
+                    return;
+                }
+            }
+        }
+    }
     for x in needles {
         let r = z.binary_search(&x);
         h.ev(format!("binary_search({:?}) -> {:?}, contains -> {}", x, r, z.contains(&x)));
@@ -2361,15 +3211,19 @@ fn zosorted_run(cx: &mut Run) {
 enum Kind {
     FastVecTracked,
     FastVecU64,
+    FastVecU8,
     ValVecTracked,
     ValVecU64,
     CacheVec,
     Bump,
     Mmap,
+    MmapU8,
     MmapSimd,
     FixedQueue,
+    FixedQueueDebug,
     AutoGrow,
     Sortable,
+    SortableBulk,
     FixedLen,
     BitPacked32,
     BitPacked64,
@@ -2384,15 +3238,19 @@ impl Scenario for Sc {
         match self.0 {
             Kind::FastVecTracked => "FastVec/tracked".into(),
             Kind::FastVecU64 => "FastVec/u64".into(),
+            Kind::FastVecU8 => "FastVec/u8".into(),
             Kind::ValVecTracked => "ValVec32/tracked".into(),
             Kind::ValVecU64 => "ValVec32/u64".into(),
             Kind::CacheVec => "CacheAlignedVec/tracked".into(),
             Kind::Bump => "BumpVec/tracked".into(),
             Kind::Mmap => "MmapVec/u64".into(),
+            Kind::MmapU8 => "MmapVec/u8".into(),
             Kind::MmapSimd => "MmapVec/with_capacity_simd".into(),
             Kind::FixedQueue => "FixedCircularQueue/tracked".into(),
+            Kind::FixedQueueDebug => "FixedCircularQueue/debug".into(),
             Kind::AutoGrow => "AutoGrowCircularQueue/tracked".into(),
             Kind::Sortable => "SortableStrVec/ops".into(),
+            Kind::SortableBulk => "SortableStrVec/bulk".into(),
             Kind::FixedLen => "FixedLenStrVec/ops".into(),
             Kind::BitPacked32 => "BitPackedStringVec/u32".into(),
             Kind::BitPacked64 => "BitPackedStringVec/u64".into(),
@@ -2404,7 +3262,11 @@ impl Scenario for Sc {
         let (q, t) = match self.0 {
             // (the driver's per-run bookkeeping, ~0.1-0.7 ms of file I/O, dominates these cheap runs)
             Kind::Mmap => (2_000, 60_000),
-            Kind::MmapSimd => (300, 9_000),
+            Kind::MmapU8 => (2_000, 60_000),
+            Kind::MmapSimd => (600, 18_000),
+            Kind::SortableBulk => (2_000, 60_000),
+            Kind::FixedQueueDebug => (4_000, 120_000),
+            Kind::FastVecU8 => (6_000, 180_000),
             Kind::ZoSorted => (3_000, 90_000),
             Kind::Sortable | Kind::FixedLen | Kind::BitPacked32 | Kind::BitPacked64 | Kind::Advanced(_) => (4_000, 120_000),
             _ => (10_000, 300_000),
@@ -2418,15 +3280,19 @@ impl Scenario for Sc {
         match self.0 {
             Kind::FastVecTracked => fastvec_run::<Tracked>(cx),
             Kind::FastVecU64 => fastvec_run::<u64>(cx),
+            Kind::FastVecU8 => fastvec_run::<u8>(cx),
             Kind::ValVecTracked => valvec_run::<Tracked>(cx),
             Kind::ValVecU64 => valvec_run::<u64>(cx),
             Kind::CacheVec => cachevec_run(cx),
             Kind::Bump => bumpvec_run(cx),
-            Kind::Mmap => mmapvec_run(cx),
+            Kind::Mmap => mmapvec_run::<u64>(cx),
+            Kind::MmapU8 => mmapvec_run::<u8>(cx),
             Kind::MmapSimd => mmap_simd_run(cx),
-            Kind::FixedQueue => fixed_queue(cx),
+            Kind::FixedQueue => fixed_queue(cx, false),
+            Kind::FixedQueueDebug => fixed_queue(cx, true),
             Kind::AutoGrow => autogrow_run(cx),
             Kind::Sortable => sortable_run(cx),
+            Kind::SortableBulk => sortable_bulk_run(cx),
             Kind::FixedLen => fixedlen(cx),
             Kind::BitPacked32 => bitpacked32_run(cx),
             Kind::BitPacked64 => bitpacked64_run(cx),
@@ -2441,7 +3307,7 @@ fn main() {
         "C10",
         "exploration",
         "seeded operation histories (swarm-configured: each operation kind is switched off in a quarter of the runs) over small capacities and short strings, \
-         compared step by step with Vec / VecDeque models and a drop ledger; non-trivial = at least 3 operations executed (ZoSortedStrVec: at least 2 strings); \
+         compared step by step with Vec / VecDeque models and a drop ledger; non-trivial = at least 3 operations executed (ZoSortedStrVec, SortableStrVec/bulk: at least 2 strings); \
          distinct = distinct hash of the (operation, observed result) trace",
     );
     spec.assumptions = vec![
@@ -2460,20 +3326,24 @@ fn main() {
         ("containers::specialized::{FixedCircularQueue, AutoGrowCircularQueue}", "real"),
         ("string vectors (SortableStrVec, FixedLenStrVec, BitPackedStringVec32/64, AdvancedStringVec levels 0-3, ZoSortedStrVec)", "real"),
         ("containers::specialized::circular_queue_ultrafast", "not compiled into the crate"),
-        ("element type", "stub: Tracked (heap-owning, ledger-registered) or u64"),
+        ("element type", "stub: Tracked (heap-owning, ledger-registered), u64, u8 (FastVec, MmapVec) or a 32-byte-aligned plain struct (BumpVec)"),
     ];
     spec.init = zsim_props::install_hooks;
     let kinds = [
         Kind::FastVecTracked,
         Kind::FastVecU64,
+        Kind::FastVecU8,
         Kind::ValVecTracked,
         Kind::ValVecU64,
         Kind::CacheVec,
         Kind::Bump,
         Kind::Mmap,
+        Kind::MmapU8,
         Kind::FixedQueue,
+        Kind::FixedQueueDebug,
         Kind::AutoGrow,
         Kind::Sortable,
+        Kind::SortableBulk,
         Kind::FixedLen,
         Kind::BitPacked32,
         Kind::BitPacked64,
